@@ -236,6 +236,11 @@ package writer
 //@   safety[C12]
 //@   requires s != nil
 //@   requires 0 <= tableOffset && tableOffset <= len(s.stack)
+//   C01/C16 (Copy / Merge copy a field exactly when it is absent): true only for a tag that is in the
+//   message's table segment; in a segment sorted by tag (what insert maintains) every present tag is found
+//@   let hTab = s.stack[tableOffset:]
+//@   ensures[C01,C16] result ==> (exists i :: 0 <= i && i < len(hTab) && hTab[i].Tag == tag)
+//@   ensures[C01,C16] (forall i, j :: 0 <= i && i < j && j < len(hTab) ==> hTab[i].Tag < hTab[j].Tag) && (exists i :: 0 <= i && i < len(hTab) && hTab[i].Tag == tag) ==> result
 
 // ---- writer state
 
@@ -600,7 +605,10 @@ package writer
 //@   ensures[C01] old(w.err) == nil && result == nil ==> old(NS(w)) >= 2 && NS(w) == old(NS(w)) - 1 && NF(w) == old(NF(w)) + 1
 //@   ensures[C01] old(w.err) == nil && result == nil && old(SE(w, NS(w) - 1).tableStart) - old(SE(w, NS(w) - 2).start) <= 4294967295 ==>
 //@        (exists p :: old(SE(w, NS(w) - 2).tableStart) <= p && p < NF(w) && FE(w, p).Tag == tag
-//@           && FE(w, p).Offset == old(SE(w, NS(w) - 1).tableStart) - old(SE(w, NS(w) - 2).start))
+//@           && FE(w, p).Offset == old(SE(w, NS(w) - 1).tableStart) - old(SE(w, NS(w) - 2).start)
+//@           && (forall i :: old(SE(w, NS(w) - 2).tableStart) <= i && i < p ==> FE(w, i).Tag == old(FE(w, i).Tag) && FE(w, i).Offset == old(FE(w, i).Offset))
+//@           && (forall i :: p < i && i < NF(w) ==> FE(w, i).Tag == old(FE(w, i - 1).Tag) && FE(w, i).Offset == old(FE(w, i - 1).Offset) && tag <= FE(w, i).Tag)
+//@           && (p > old(SE(w, NS(w) - 2).tableStart) ==> FE(w, p - 1).Tag < tag))
 //@   ensures[C01] old(w.err) == nil && result == nil ==> (forall k :: 0 <= k && k < old(SE(w, NS(w) - 2).tableStart) ==> FE(w, k).Tag == old(FE(w, k).Tag) && FE(w, k).Offset == old(FE(w, k).Offset))
 //@   preserves old(w.err) == nil && result == nil : @NOTSF
 //@   ensures[C01] old(w.err) == nil && result == nil ==> (forall k :: 0 <= k && k < NS(w) ==> SE(w, k).start == old(SE(w, k).start) && SE(w, k).tableStart == old(SE(w, k).tableStart) && SE(w, k).type_ == old(SE(w, k).type_))
@@ -890,6 +898,16 @@ package writer
 //@   modifies @WRITER
 //@   modifies @BUF
 //@   ensures[C01] result3 == nil && result2 == 2 && result0 == v1 && result1 == v2
+//@   canary[C01] result1 == 0
+
+// two fields written in DESCENDING tag order: the second insert has to go in front of the first
+//@ func ghostMessageTwoFieldsDescending
+//@   tier thorough
+//@   requires buf != nil && t2 < t1
+//@   modifies @WRITER
+//@   modifies @BUF
+//@   modifies writer.MessageWriter.*
+//@   ensures[C01] result2 == nil && result0 == v1 && result1 == v2
 //@   canary[C01] result1 == 0
 
 // ---- handles (generated by /verif/tools/gen_writer_contracts.py)
@@ -2040,7 +2058,10 @@ package writer
 //@   modifies @BUF
 //@   ensures[C01] old(f.w.err) == nil && result == nil ==> NF(f.w) == old(NF(f.w)) + 1 && NS(f.w) == old(NS(f.w))
 //@   preserves old(f.w.err) == nil && result == nil : @NOTSF
-//@   ensures[C01] old(f.w.err) == nil && result == nil && BL(f.w) - old(SE(f.w, NS(f.w) - 1).start) <= 4294967295 ==> (exists p :: old(SE(f.w, NS(f.w) - 1).tableStart) <= p && p < NF(f.w) && FE(f.w, p).Tag == f.tag && FE(f.w, p).Offset == BL(f.w) - old(SE(f.w, NS(f.w) - 1).start))
+//@   ensures[C01] old(f.w.err) == nil && result == nil && BL(f.w) - old(SE(f.w, NS(f.w) - 1).start) <= 4294967295 ==> (exists p :: old(SE(f.w, NS(f.w) - 1).tableStart) <= p && p < NF(f.w) && FE(f.w, p).Tag == f.tag && FE(f.w, p).Offset == BL(f.w) - old(SE(f.w, NS(f.w) - 1).start)
+//@        && (forall i :: old(SE(f.w, NS(f.w) - 1).tableStart) <= i && i < p ==> FE(f.w, i).Tag == old(FE(f.w, i).Tag) && FE(f.w, i).Offset == old(FE(f.w, i).Offset))
+//@        && (forall i :: p < i && i < NF(f.w) ==> FE(f.w, i).Tag == old(FE(f.w, i - 1).Tag) && FE(f.w, i).Offset == old(FE(f.w, i - 1).Offset) && f.tag <= FE(f.w, i).Tag)
+//@        && (p > old(SE(f.w, NS(f.w) - 1).tableStart) ==> FE(f.w, p - 1).Tag < f.tag))
 //@   ensures[C01] old(f.w.err) == nil && result == nil ==> (forall k :: 0 <= k && k < NS(f.w) ==> SE(f.w, k).start == old(SE(f.w, k).start) && SE(f.w, k).tableStart == old(SE(f.w, k).tableStart) && SE(f.w, k).type_ == old(SE(f.w, k).type_))
 //@   ensures[C12] WI(f.w)
 //@   ensures[C12] f.w.err == nil ==> STK1(f.w)
@@ -2066,7 +2087,10 @@ package writer
 //@   modifies @BUF
 //@   ensures[C01] old(f.w.err) == nil && result == nil ==> NF(f.w) == old(NF(f.w)) + 1 && NS(f.w) == old(NS(f.w))
 //@   preserves old(f.w.err) == nil && result == nil : @NOTSF
-//@   ensures[C01] old(f.w.err) == nil && result == nil && BL(f.w) - old(SE(f.w, NS(f.w) - 1).start) <= 4294967295 ==> (exists p :: old(SE(f.w, NS(f.w) - 1).tableStart) <= p && p < NF(f.w) && FE(f.w, p).Tag == f.tag && FE(f.w, p).Offset == BL(f.w) - old(SE(f.w, NS(f.w) - 1).start))
+//@   ensures[C01] old(f.w.err) == nil && result == nil && BL(f.w) - old(SE(f.w, NS(f.w) - 1).start) <= 4294967295 ==> (exists p :: old(SE(f.w, NS(f.w) - 1).tableStart) <= p && p < NF(f.w) && FE(f.w, p).Tag == f.tag && FE(f.w, p).Offset == BL(f.w) - old(SE(f.w, NS(f.w) - 1).start)
+//@        && (forall i :: old(SE(f.w, NS(f.w) - 1).tableStart) <= i && i < p ==> FE(f.w, i).Tag == old(FE(f.w, i).Tag) && FE(f.w, i).Offset == old(FE(f.w, i).Offset))
+//@        && (forall i :: p < i && i < NF(f.w) ==> FE(f.w, i).Tag == old(FE(f.w, i - 1).Tag) && FE(f.w, i).Offset == old(FE(f.w, i - 1).Offset) && f.tag <= FE(f.w, i).Tag)
+//@        && (p > old(SE(f.w, NS(f.w) - 1).tableStart) ==> FE(f.w, p - 1).Tag < f.tag))
 //@   ensures[C01] old(f.w.err) == nil && result == nil ==> (forall k :: 0 <= k && k < NS(f.w) ==> SE(f.w, k).start == old(SE(f.w, k).start) && SE(f.w, k).tableStart == old(SE(f.w, k).tableStart) && SE(f.w, k).type_ == old(SE(f.w, k).type_))
 //@   ensures[C12] WI(f.w)
 //@   ensures[C12] f.w.err == nil ==> STK1(f.w)
@@ -2092,7 +2116,10 @@ package writer
 //@   modifies @BUF
 //@   ensures[C01] old(f.w.err) == nil && result == nil ==> NF(f.w) == old(NF(f.w)) + 1 && NS(f.w) == old(NS(f.w))
 //@   preserves old(f.w.err) == nil && result == nil : @NOTSF
-//@   ensures[C01] old(f.w.err) == nil && result == nil && BL(f.w) - old(SE(f.w, NS(f.w) - 1).start) <= 4294967295 ==> (exists p :: old(SE(f.w, NS(f.w) - 1).tableStart) <= p && p < NF(f.w) && FE(f.w, p).Tag == f.tag && FE(f.w, p).Offset == BL(f.w) - old(SE(f.w, NS(f.w) - 1).start))
+//@   ensures[C01] old(f.w.err) == nil && result == nil && BL(f.w) - old(SE(f.w, NS(f.w) - 1).start) <= 4294967295 ==> (exists p :: old(SE(f.w, NS(f.w) - 1).tableStart) <= p && p < NF(f.w) && FE(f.w, p).Tag == f.tag && FE(f.w, p).Offset == BL(f.w) - old(SE(f.w, NS(f.w) - 1).start)
+//@        && (forall i :: old(SE(f.w, NS(f.w) - 1).tableStart) <= i && i < p ==> FE(f.w, i).Tag == old(FE(f.w, i).Tag) && FE(f.w, i).Offset == old(FE(f.w, i).Offset))
+//@        && (forall i :: p < i && i < NF(f.w) ==> FE(f.w, i).Tag == old(FE(f.w, i - 1).Tag) && FE(f.w, i).Offset == old(FE(f.w, i - 1).Offset) && f.tag <= FE(f.w, i).Tag)
+//@        && (p > old(SE(f.w, NS(f.w) - 1).tableStart) ==> FE(f.w, p - 1).Tag < f.tag))
 //@   ensures[C01] old(f.w.err) == nil && result == nil ==> (forall k :: 0 <= k && k < NS(f.w) ==> SE(f.w, k).start == old(SE(f.w, k).start) && SE(f.w, k).tableStart == old(SE(f.w, k).tableStart) && SE(f.w, k).type_ == old(SE(f.w, k).type_))
 //@   ensures[C12] WI(f.w)
 //@   ensures[C12] f.w.err == nil ==> STK1(f.w)
@@ -2118,7 +2145,10 @@ package writer
 //@   modifies @BUF
 //@   ensures[C01] old(f.w.err) == nil && result == nil ==> NF(f.w) == old(NF(f.w)) + 1 && NS(f.w) == old(NS(f.w))
 //@   preserves old(f.w.err) == nil && result == nil : @NOTSF
-//@   ensures[C01] old(f.w.err) == nil && result == nil && BL(f.w) - old(SE(f.w, NS(f.w) - 1).start) <= 4294967295 ==> (exists p :: old(SE(f.w, NS(f.w) - 1).tableStart) <= p && p < NF(f.w) && FE(f.w, p).Tag == f.tag && FE(f.w, p).Offset == BL(f.w) - old(SE(f.w, NS(f.w) - 1).start))
+//@   ensures[C01] old(f.w.err) == nil && result == nil && BL(f.w) - old(SE(f.w, NS(f.w) - 1).start) <= 4294967295 ==> (exists p :: old(SE(f.w, NS(f.w) - 1).tableStart) <= p && p < NF(f.w) && FE(f.w, p).Tag == f.tag && FE(f.w, p).Offset == BL(f.w) - old(SE(f.w, NS(f.w) - 1).start)
+//@        && (forall i :: old(SE(f.w, NS(f.w) - 1).tableStart) <= i && i < p ==> FE(f.w, i).Tag == old(FE(f.w, i).Tag) && FE(f.w, i).Offset == old(FE(f.w, i).Offset))
+//@        && (forall i :: p < i && i < NF(f.w) ==> FE(f.w, i).Tag == old(FE(f.w, i - 1).Tag) && FE(f.w, i).Offset == old(FE(f.w, i - 1).Offset) && f.tag <= FE(f.w, i).Tag)
+//@        && (p > old(SE(f.w, NS(f.w) - 1).tableStart) ==> FE(f.w, p - 1).Tag < f.tag))
 //@   ensures[C01] old(f.w.err) == nil && result == nil ==> (forall k :: 0 <= k && k < NS(f.w) ==> SE(f.w, k).start == old(SE(f.w, k).start) && SE(f.w, k).tableStart == old(SE(f.w, k).tableStart) && SE(f.w, k).type_ == old(SE(f.w, k).type_))
 //@   ensures[C01] old(f.w.err) == nil && result == nil ==> BL(f.w) == old(BL(f.w)) + uvarintLen(zigzag(v)) + 1 && isUvarint(bytesOf(bobj(f.w.writerState.buf)), old(BL(f.w)), uvarintLen(zigzag(v)), zigzag(v)) && bytesOf(bobj(f.w.writerState.buf))[BL(f.w) - 1] == 11
 //@   ensures[C01] old(f.w.err) == nil && result == nil ==> (forall i :: 0 <= i && i < old(BL(f.w)) ==> bytesOf(bobj(f.w.writerState.buf))[i] == old(bytesOf(bobj(f.w.writerState.buf)))[i])
@@ -2147,8 +2177,14 @@ package writer
 //@   modifies @BUF
 //@   ensures[C01] old(f.w.err) == nil && result == nil ==> NF(f.w) == old(NF(f.w)) + 1 && NS(f.w) == old(NS(f.w))
 //@   preserves old(f.w.err) == nil && result == nil : @NOTSF
-//@   ensures[C01] old(f.w.err) == nil && result == nil && BL(f.w) - old(SE(f.w, NS(f.w) - 1).start) <= 4294967295 ==> (exists p :: old(SE(f.w, NS(f.w) - 1).tableStart) <= p && p < NF(f.w) && FE(f.w, p).Tag == f.tag && FE(f.w, p).Offset == BL(f.w) - old(SE(f.w, NS(f.w) - 1).start))
+//@   ensures[C01] old(f.w.err) == nil && result == nil && BL(f.w) - old(SE(f.w, NS(f.w) - 1).start) <= 4294967295 ==> (exists p :: old(SE(f.w, NS(f.w) - 1).tableStart) <= p && p < NF(f.w) && FE(f.w, p).Tag == f.tag && FE(f.w, p).Offset == BL(f.w) - old(SE(f.w, NS(f.w) - 1).start)
+//@        && (forall i :: old(SE(f.w, NS(f.w) - 1).tableStart) <= i && i < p ==> FE(f.w, i).Tag == old(FE(f.w, i).Tag) && FE(f.w, i).Offset == old(FE(f.w, i).Offset))
+//@        && (forall i :: p < i && i < NF(f.w) ==> FE(f.w, i).Tag == old(FE(f.w, i - 1).Tag) && FE(f.w, i).Offset == old(FE(f.w, i - 1).Offset) && f.tag <= FE(f.w, i).Tag)
+//@        && (p > old(SE(f.w, NS(f.w) - 1).tableStart) ==> FE(f.w, p - 1).Tag < f.tag))
 //@   ensures[C01] old(f.w.err) == nil && result == nil ==> (forall k :: 0 <= k && k < NS(f.w) ==> SE(f.w, k).start == old(SE(f.w, k).start) && SE(f.w, k).tableStart == old(SE(f.w, k).tableStart) && SE(f.w, k).type_ == old(SE(f.w, k).type_))
+//@   ensures[C01] old(f.w.err) == nil && result == nil ==> BL(f.w) == old(BL(f.w)) + uvarintLen(zigzag(v)) + 1 && isUvarint(bytesOf(bobj(f.w.writerState.buf)), old(BL(f.w)), uvarintLen(zigzag(v)), zigzag(v)) && bytesOf(bobj(f.w.writerState.buf))[BL(f.w) - 1] == 12
+//@   ensures[C01] old(f.w.err) == nil && result == nil ==> (forall i :: 0 <= i && i < old(BL(f.w)) ==> bytesOf(bobj(f.w.writerState.buf))[i] == old(bytesOf(bobj(f.w.writerState.buf)))[i])
+//@   ensures[C01] old(f.w.err) == nil && old(NS(f.w)) >= 1 && old(SE(f.w, NS(f.w) - 1).type_) == 4 ==> result == nil
 //@   ensures[C12] WI(f.w)
 //@   ensures[C12] f.w.err == nil ==> STK1(f.w)
 //@   ensures[C12] f.w.err == nil ==> STK2(f.w)
@@ -2173,7 +2209,10 @@ package writer
 //@   modifies @BUF
 //@   ensures[C01] old(f.w.err) == nil && result == nil ==> NF(f.w) == old(NF(f.w)) + 1 && NS(f.w) == old(NS(f.w))
 //@   preserves old(f.w.err) == nil && result == nil : @NOTSF
-//@   ensures[C01] old(f.w.err) == nil && result == nil && BL(f.w) - old(SE(f.w, NS(f.w) - 1).start) <= 4294967295 ==> (exists p :: old(SE(f.w, NS(f.w) - 1).tableStart) <= p && p < NF(f.w) && FE(f.w, p).Tag == f.tag && FE(f.w, p).Offset == BL(f.w) - old(SE(f.w, NS(f.w) - 1).start))
+//@   ensures[C01] old(f.w.err) == nil && result == nil && BL(f.w) - old(SE(f.w, NS(f.w) - 1).start) <= 4294967295 ==> (exists p :: old(SE(f.w, NS(f.w) - 1).tableStart) <= p && p < NF(f.w) && FE(f.w, p).Tag == f.tag && FE(f.w, p).Offset == BL(f.w) - old(SE(f.w, NS(f.w) - 1).start)
+//@        && (forall i :: old(SE(f.w, NS(f.w) - 1).tableStart) <= i && i < p ==> FE(f.w, i).Tag == old(FE(f.w, i).Tag) && FE(f.w, i).Offset == old(FE(f.w, i).Offset))
+//@        && (forall i :: p < i && i < NF(f.w) ==> FE(f.w, i).Tag == old(FE(f.w, i - 1).Tag) && FE(f.w, i).Offset == old(FE(f.w, i - 1).Offset) && f.tag <= FE(f.w, i).Tag)
+//@        && (p > old(SE(f.w, NS(f.w) - 1).tableStart) ==> FE(f.w, p - 1).Tag < f.tag))
 //@   ensures[C01] old(f.w.err) == nil && result == nil ==> (forall k :: 0 <= k && k < NS(f.w) ==> SE(f.w, k).start == old(SE(f.w, k).start) && SE(f.w, k).tableStart == old(SE(f.w, k).tableStart) && SE(f.w, k).type_ == old(SE(f.w, k).type_))
 //@   ensures[C12] WI(f.w)
 //@   ensures[C12] f.w.err == nil ==> STK1(f.w)
@@ -2199,7 +2238,10 @@ package writer
 //@   modifies @BUF
 //@   ensures[C01] old(f.w.err) == nil && result == nil ==> NF(f.w) == old(NF(f.w)) + 1 && NS(f.w) == old(NS(f.w))
 //@   preserves old(f.w.err) == nil && result == nil : @NOTSF
-//@   ensures[C01] old(f.w.err) == nil && result == nil && BL(f.w) - old(SE(f.w, NS(f.w) - 1).start) <= 4294967295 ==> (exists p :: old(SE(f.w, NS(f.w) - 1).tableStart) <= p && p < NF(f.w) && FE(f.w, p).Tag == f.tag && FE(f.w, p).Offset == BL(f.w) - old(SE(f.w, NS(f.w) - 1).start))
+//@   ensures[C01] old(f.w.err) == nil && result == nil && BL(f.w) - old(SE(f.w, NS(f.w) - 1).start) <= 4294967295 ==> (exists p :: old(SE(f.w, NS(f.w) - 1).tableStart) <= p && p < NF(f.w) && FE(f.w, p).Tag == f.tag && FE(f.w, p).Offset == BL(f.w) - old(SE(f.w, NS(f.w) - 1).start)
+//@        && (forall i :: old(SE(f.w, NS(f.w) - 1).tableStart) <= i && i < p ==> FE(f.w, i).Tag == old(FE(f.w, i).Tag) && FE(f.w, i).Offset == old(FE(f.w, i).Offset))
+//@        && (forall i :: p < i && i < NF(f.w) ==> FE(f.w, i).Tag == old(FE(f.w, i - 1).Tag) && FE(f.w, i).Offset == old(FE(f.w, i - 1).Offset) && f.tag <= FE(f.w, i).Tag)
+//@        && (p > old(SE(f.w, NS(f.w) - 1).tableStart) ==> FE(f.w, p - 1).Tag < f.tag))
 //@   ensures[C01] old(f.w.err) == nil && result == nil ==> (forall k :: 0 <= k && k < NS(f.w) ==> SE(f.w, k).start == old(SE(f.w, k).start) && SE(f.w, k).tableStart == old(SE(f.w, k).tableStart) && SE(f.w, k).type_ == old(SE(f.w, k).type_))
 //@   ensures[C12] WI(f.w)
 //@   ensures[C12] f.w.err == nil ==> STK1(f.w)
@@ -2225,7 +2267,10 @@ package writer
 //@   modifies @BUF
 //@   ensures[C01] old(f.w.err) == nil && result == nil ==> NF(f.w) == old(NF(f.w)) + 1 && NS(f.w) == old(NS(f.w))
 //@   preserves old(f.w.err) == nil && result == nil : @NOTSF
-//@   ensures[C01] old(f.w.err) == nil && result == nil && BL(f.w) - old(SE(f.w, NS(f.w) - 1).start) <= 4294967295 ==> (exists p :: old(SE(f.w, NS(f.w) - 1).tableStart) <= p && p < NF(f.w) && FE(f.w, p).Tag == f.tag && FE(f.w, p).Offset == BL(f.w) - old(SE(f.w, NS(f.w) - 1).start))
+//@   ensures[C01] old(f.w.err) == nil && result == nil && BL(f.w) - old(SE(f.w, NS(f.w) - 1).start) <= 4294967295 ==> (exists p :: old(SE(f.w, NS(f.w) - 1).tableStart) <= p && p < NF(f.w) && FE(f.w, p).Tag == f.tag && FE(f.w, p).Offset == BL(f.w) - old(SE(f.w, NS(f.w) - 1).start)
+//@        && (forall i :: old(SE(f.w, NS(f.w) - 1).tableStart) <= i && i < p ==> FE(f.w, i).Tag == old(FE(f.w, i).Tag) && FE(f.w, i).Offset == old(FE(f.w, i).Offset))
+//@        && (forall i :: p < i && i < NF(f.w) ==> FE(f.w, i).Tag == old(FE(f.w, i - 1).Tag) && FE(f.w, i).Offset == old(FE(f.w, i - 1).Offset) && f.tag <= FE(f.w, i).Tag)
+//@        && (p > old(SE(f.w, NS(f.w) - 1).tableStart) ==> FE(f.w, p - 1).Tag < f.tag))
 //@   ensures[C01] old(f.w.err) == nil && result == nil ==> (forall k :: 0 <= k && k < NS(f.w) ==> SE(f.w, k).start == old(SE(f.w, k).start) && SE(f.w, k).tableStart == old(SE(f.w, k).tableStart) && SE(f.w, k).type_ == old(SE(f.w, k).type_))
 //@   ensures[C12] WI(f.w)
 //@   ensures[C12] f.w.err == nil ==> STK1(f.w)
@@ -2251,7 +2296,10 @@ package writer
 //@   modifies @BUF
 //@   ensures[C01] old(f.w.err) == nil && result == nil ==> NF(f.w) == old(NF(f.w)) + 1 && NS(f.w) == old(NS(f.w))
 //@   preserves old(f.w.err) == nil && result == nil : @NOTSF
-//@   ensures[C01] old(f.w.err) == nil && result == nil && BL(f.w) - old(SE(f.w, NS(f.w) - 1).start) <= 4294967295 ==> (exists p :: old(SE(f.w, NS(f.w) - 1).tableStart) <= p && p < NF(f.w) && FE(f.w, p).Tag == f.tag && FE(f.w, p).Offset == BL(f.w) - old(SE(f.w, NS(f.w) - 1).start))
+//@   ensures[C01] old(f.w.err) == nil && result == nil && BL(f.w) - old(SE(f.w, NS(f.w) - 1).start) <= 4294967295 ==> (exists p :: old(SE(f.w, NS(f.w) - 1).tableStart) <= p && p < NF(f.w) && FE(f.w, p).Tag == f.tag && FE(f.w, p).Offset == BL(f.w) - old(SE(f.w, NS(f.w) - 1).start)
+//@        && (forall i :: old(SE(f.w, NS(f.w) - 1).tableStart) <= i && i < p ==> FE(f.w, i).Tag == old(FE(f.w, i).Tag) && FE(f.w, i).Offset == old(FE(f.w, i).Offset))
+//@        && (forall i :: p < i && i < NF(f.w) ==> FE(f.w, i).Tag == old(FE(f.w, i - 1).Tag) && FE(f.w, i).Offset == old(FE(f.w, i - 1).Offset) && f.tag <= FE(f.w, i).Tag)
+//@        && (p > old(SE(f.w, NS(f.w) - 1).tableStart) ==> FE(f.w, p - 1).Tag < f.tag))
 //@   ensures[C01] old(f.w.err) == nil && result == nil ==> (forall k :: 0 <= k && k < NS(f.w) ==> SE(f.w, k).start == old(SE(f.w, k).start) && SE(f.w, k).tableStart == old(SE(f.w, k).tableStart) && SE(f.w, k).type_ == old(SE(f.w, k).type_))
 //@   ensures[C12] WI(f.w)
 //@   ensures[C12] f.w.err == nil ==> STK1(f.w)
@@ -2277,7 +2325,10 @@ package writer
 //@   modifies @BUF
 //@   ensures[C01] old(f.w.err) == nil && result == nil ==> NF(f.w) == old(NF(f.w)) + 1 && NS(f.w) == old(NS(f.w))
 //@   preserves old(f.w.err) == nil && result == nil : @NOTSF
-//@   ensures[C01] old(f.w.err) == nil && result == nil && BL(f.w) - old(SE(f.w, NS(f.w) - 1).start) <= 4294967295 ==> (exists p :: old(SE(f.w, NS(f.w) - 1).tableStart) <= p && p < NF(f.w) && FE(f.w, p).Tag == f.tag && FE(f.w, p).Offset == BL(f.w) - old(SE(f.w, NS(f.w) - 1).start))
+//@   ensures[C01] old(f.w.err) == nil && result == nil && BL(f.w) - old(SE(f.w, NS(f.w) - 1).start) <= 4294967295 ==> (exists p :: old(SE(f.w, NS(f.w) - 1).tableStart) <= p && p < NF(f.w) && FE(f.w, p).Tag == f.tag && FE(f.w, p).Offset == BL(f.w) - old(SE(f.w, NS(f.w) - 1).start)
+//@        && (forall i :: old(SE(f.w, NS(f.w) - 1).tableStart) <= i && i < p ==> FE(f.w, i).Tag == old(FE(f.w, i).Tag) && FE(f.w, i).Offset == old(FE(f.w, i).Offset))
+//@        && (forall i :: p < i && i < NF(f.w) ==> FE(f.w, i).Tag == old(FE(f.w, i - 1).Tag) && FE(f.w, i).Offset == old(FE(f.w, i - 1).Offset) && f.tag <= FE(f.w, i).Tag)
+//@        && (p > old(SE(f.w, NS(f.w) - 1).tableStart) ==> FE(f.w, p - 1).Tag < f.tag))
 //@   ensures[C01] old(f.w.err) == nil && result == nil ==> (forall k :: 0 <= k && k < NS(f.w) ==> SE(f.w, k).start == old(SE(f.w, k).start) && SE(f.w, k).tableStart == old(SE(f.w, k).tableStart) && SE(f.w, k).type_ == old(SE(f.w, k).type_))
 //@   ensures[C12] WI(f.w)
 //@   ensures[C12] f.w.err == nil ==> STK1(f.w)
@@ -2303,7 +2354,10 @@ package writer
 //@   modifies @BUF
 //@   ensures[C01] old(f.w.err) == nil && result == nil ==> NF(f.w) == old(NF(f.w)) + 1 && NS(f.w) == old(NS(f.w))
 //@   preserves old(f.w.err) == nil && result == nil : @NOTSF
-//@   ensures[C01] old(f.w.err) == nil && result == nil && BL(f.w) - old(SE(f.w, NS(f.w) - 1).start) <= 4294967295 ==> (exists p :: old(SE(f.w, NS(f.w) - 1).tableStart) <= p && p < NF(f.w) && FE(f.w, p).Tag == f.tag && FE(f.w, p).Offset == BL(f.w) - old(SE(f.w, NS(f.w) - 1).start))
+//@   ensures[C01] old(f.w.err) == nil && result == nil && BL(f.w) - old(SE(f.w, NS(f.w) - 1).start) <= 4294967295 ==> (exists p :: old(SE(f.w, NS(f.w) - 1).tableStart) <= p && p < NF(f.w) && FE(f.w, p).Tag == f.tag && FE(f.w, p).Offset == BL(f.w) - old(SE(f.w, NS(f.w) - 1).start)
+//@        && (forall i :: old(SE(f.w, NS(f.w) - 1).tableStart) <= i && i < p ==> FE(f.w, i).Tag == old(FE(f.w, i).Tag) && FE(f.w, i).Offset == old(FE(f.w, i).Offset))
+//@        && (forall i :: p < i && i < NF(f.w) ==> FE(f.w, i).Tag == old(FE(f.w, i - 1).Tag) && FE(f.w, i).Offset == old(FE(f.w, i - 1).Offset) && f.tag <= FE(f.w, i).Tag)
+//@        && (p > old(SE(f.w, NS(f.w) - 1).tableStart) ==> FE(f.w, p - 1).Tag < f.tag))
 //@   ensures[C01] old(f.w.err) == nil && result == nil ==> (forall k :: 0 <= k && k < NS(f.w) ==> SE(f.w, k).start == old(SE(f.w, k).start) && SE(f.w, k).tableStart == old(SE(f.w, k).tableStart) && SE(f.w, k).type_ == old(SE(f.w, k).type_))
 //@   ensures[C12] WI(f.w)
 //@   ensures[C12] f.w.err == nil ==> STK1(f.w)
@@ -2329,7 +2383,10 @@ package writer
 //@   modifies @BUF
 //@   ensures[C01] old(f.w.err) == nil && result == nil ==> NF(f.w) == old(NF(f.w)) + 1 && NS(f.w) == old(NS(f.w))
 //@   preserves old(f.w.err) == nil && result == nil : @NOTSF
-//@   ensures[C01] old(f.w.err) == nil && result == nil && BL(f.w) - old(SE(f.w, NS(f.w) - 1).start) <= 4294967295 ==> (exists p :: old(SE(f.w, NS(f.w) - 1).tableStart) <= p && p < NF(f.w) && FE(f.w, p).Tag == f.tag && FE(f.w, p).Offset == BL(f.w) - old(SE(f.w, NS(f.w) - 1).start))
+//@   ensures[C01] old(f.w.err) == nil && result == nil && BL(f.w) - old(SE(f.w, NS(f.w) - 1).start) <= 4294967295 ==> (exists p :: old(SE(f.w, NS(f.w) - 1).tableStart) <= p && p < NF(f.w) && FE(f.w, p).Tag == f.tag && FE(f.w, p).Offset == BL(f.w) - old(SE(f.w, NS(f.w) - 1).start)
+//@        && (forall i :: old(SE(f.w, NS(f.w) - 1).tableStart) <= i && i < p ==> FE(f.w, i).Tag == old(FE(f.w, i).Tag) && FE(f.w, i).Offset == old(FE(f.w, i).Offset))
+//@        && (forall i :: p < i && i < NF(f.w) ==> FE(f.w, i).Tag == old(FE(f.w, i - 1).Tag) && FE(f.w, i).Offset == old(FE(f.w, i - 1).Offset) && f.tag <= FE(f.w, i).Tag)
+//@        && (p > old(SE(f.w, NS(f.w) - 1).tableStart) ==> FE(f.w, p - 1).Tag < f.tag))
 //@   ensures[C01] old(f.w.err) == nil && result == nil ==> (forall k :: 0 <= k && k < NS(f.w) ==> SE(f.w, k).start == old(SE(f.w, k).start) && SE(f.w, k).tableStart == old(SE(f.w, k).tableStart) && SE(f.w, k).type_ == old(SE(f.w, k).type_))
 //@   ensures[C12] WI(f.w)
 //@   ensures[C12] f.w.err == nil ==> STK1(f.w)
@@ -2355,7 +2412,10 @@ package writer
 //@   modifies @BUF
 //@   ensures[C01] old(f.w.err) == nil && result == nil ==> NF(f.w) == old(NF(f.w)) + 1 && NS(f.w) == old(NS(f.w))
 //@   preserves old(f.w.err) == nil && result == nil : @NOTSF
-//@   ensures[C01] old(f.w.err) == nil && result == nil && BL(f.w) - old(SE(f.w, NS(f.w) - 1).start) <= 4294967295 ==> (exists p :: old(SE(f.w, NS(f.w) - 1).tableStart) <= p && p < NF(f.w) && FE(f.w, p).Tag == f.tag && FE(f.w, p).Offset == BL(f.w) - old(SE(f.w, NS(f.w) - 1).start))
+//@   ensures[C01] old(f.w.err) == nil && result == nil && BL(f.w) - old(SE(f.w, NS(f.w) - 1).start) <= 4294967295 ==> (exists p :: old(SE(f.w, NS(f.w) - 1).tableStart) <= p && p < NF(f.w) && FE(f.w, p).Tag == f.tag && FE(f.w, p).Offset == BL(f.w) - old(SE(f.w, NS(f.w) - 1).start)
+//@        && (forall i :: old(SE(f.w, NS(f.w) - 1).tableStart) <= i && i < p ==> FE(f.w, i).Tag == old(FE(f.w, i).Tag) && FE(f.w, i).Offset == old(FE(f.w, i).Offset))
+//@        && (forall i :: p < i && i < NF(f.w) ==> FE(f.w, i).Tag == old(FE(f.w, i - 1).Tag) && FE(f.w, i).Offset == old(FE(f.w, i - 1).Offset) && f.tag <= FE(f.w, i).Tag)
+//@        && (p > old(SE(f.w, NS(f.w) - 1).tableStart) ==> FE(f.w, p - 1).Tag < f.tag))
 //@   ensures[C01] old(f.w.err) == nil && result == nil ==> (forall k :: 0 <= k && k < NS(f.w) ==> SE(f.w, k).start == old(SE(f.w, k).start) && SE(f.w, k).tableStart == old(SE(f.w, k).tableStart) && SE(f.w, k).type_ == old(SE(f.w, k).type_))
 //@   ensures[C12] WI(f.w)
 //@   ensures[C12] f.w.err == nil ==> STK1(f.w)
@@ -2381,7 +2441,10 @@ package writer
 //@   modifies @BUF
 //@   ensures[C01] old(f.w.err) == nil && result == nil ==> NF(f.w) == old(NF(f.w)) + 1 && NS(f.w) == old(NS(f.w))
 //@   preserves old(f.w.err) == nil && result == nil : @NOTSF
-//@   ensures[C01] old(f.w.err) == nil && result == nil && BL(f.w) - old(SE(f.w, NS(f.w) - 1).start) <= 4294967295 ==> (exists p :: old(SE(f.w, NS(f.w) - 1).tableStart) <= p && p < NF(f.w) && FE(f.w, p).Tag == f.tag && FE(f.w, p).Offset == BL(f.w) - old(SE(f.w, NS(f.w) - 1).start))
+//@   ensures[C01] old(f.w.err) == nil && result == nil && BL(f.w) - old(SE(f.w, NS(f.w) - 1).start) <= 4294967295 ==> (exists p :: old(SE(f.w, NS(f.w) - 1).tableStart) <= p && p < NF(f.w) && FE(f.w, p).Tag == f.tag && FE(f.w, p).Offset == BL(f.w) - old(SE(f.w, NS(f.w) - 1).start)
+//@        && (forall i :: old(SE(f.w, NS(f.w) - 1).tableStart) <= i && i < p ==> FE(f.w, i).Tag == old(FE(f.w, i).Tag) && FE(f.w, i).Offset == old(FE(f.w, i).Offset))
+//@        && (forall i :: p < i && i < NF(f.w) ==> FE(f.w, i).Tag == old(FE(f.w, i - 1).Tag) && FE(f.w, i).Offset == old(FE(f.w, i - 1).Offset) && f.tag <= FE(f.w, i).Tag)
+//@        && (p > old(SE(f.w, NS(f.w) - 1).tableStart) ==> FE(f.w, p - 1).Tag < f.tag))
 //@   ensures[C01] old(f.w.err) == nil && result == nil ==> (forall k :: 0 <= k && k < NS(f.w) ==> SE(f.w, k).start == old(SE(f.w, k).start) && SE(f.w, k).tableStart == old(SE(f.w, k).tableStart) && SE(f.w, k).type_ == old(SE(f.w, k).type_))
 //@   ensures[C12] WI(f.w)
 //@   ensures[C12] f.w.err == nil ==> STK1(f.w)
@@ -2407,7 +2470,10 @@ package writer
 //@   modifies @BUF
 //@   ensures[C01] old(f.w.err) == nil && result == nil ==> NF(f.w) == old(NF(f.w)) + 1 && NS(f.w) == old(NS(f.w))
 //@   preserves old(f.w.err) == nil && result == nil : @NOTSF
-//@   ensures[C01] old(f.w.err) == nil && result == nil && BL(f.w) - old(SE(f.w, NS(f.w) - 1).start) <= 4294967295 ==> (exists p :: old(SE(f.w, NS(f.w) - 1).tableStart) <= p && p < NF(f.w) && FE(f.w, p).Tag == f.tag && FE(f.w, p).Offset == BL(f.w) - old(SE(f.w, NS(f.w) - 1).start))
+//@   ensures[C01] old(f.w.err) == nil && result == nil && BL(f.w) - old(SE(f.w, NS(f.w) - 1).start) <= 4294967295 ==> (exists p :: old(SE(f.w, NS(f.w) - 1).tableStart) <= p && p < NF(f.w) && FE(f.w, p).Tag == f.tag && FE(f.w, p).Offset == BL(f.w) - old(SE(f.w, NS(f.w) - 1).start)
+//@        && (forall i :: old(SE(f.w, NS(f.w) - 1).tableStart) <= i && i < p ==> FE(f.w, i).Tag == old(FE(f.w, i).Tag) && FE(f.w, i).Offset == old(FE(f.w, i).Offset))
+//@        && (forall i :: p < i && i < NF(f.w) ==> FE(f.w, i).Tag == old(FE(f.w, i - 1).Tag) && FE(f.w, i).Offset == old(FE(f.w, i - 1).Offset) && f.tag <= FE(f.w, i).Tag)
+//@        && (p > old(SE(f.w, NS(f.w) - 1).tableStart) ==> FE(f.w, p - 1).Tag < f.tag))
 //@   ensures[C01] old(f.w.err) == nil && result == nil ==> (forall k :: 0 <= k && k < NS(f.w) ==> SE(f.w, k).start == old(SE(f.w, k).start) && SE(f.w, k).tableStart == old(SE(f.w, k).tableStart) && SE(f.w, k).type_ == old(SE(f.w, k).type_))
 //@   ensures[C12] WI(f.w)
 //@   ensures[C12] f.w.err == nil ==> STK1(f.w)
